@@ -17,5 +17,5 @@ let () =
   let out = Buffer.create (1 lsl 20) in
   List.iter (fun l -> List.iter (Buffer.add_char out) l; Buffer.add_char out '\n';
                       if Buffer.length out > (1 lsl 20) then (print_string (Buffer.contents out); Buffer.clear out))
-            (Gen.cases (z_of_int tier) (z_of_int seed));
+            (Gen.CASES (z_of_int tier) (z_of_int seed));
   print_string (Buffer.contents out)
